@@ -145,3 +145,19 @@ TEXT["C10"] = {
     "note": ("Trusted: Lean kernel + standard axioms; harness; regexp engine as oracle. Partial: the Zookeeper reader path has a single accept gate (resetGroupListWatchAndAdd) that is read, not "
              "modelled; ZK watch dynamics are not modelled."),
 }
+
+TEXT["C20"] = {
+    "design_ref": "DESIGN.md §4.20",
+    "technique": "Lean 4: deep embedding of the text/template fragment + type checker with soundness theorem, applied by `decide` to the shipped templates and data schema REGENERATED from /repo on every run; + differential correspondence of the template evaluator model against the real executeTemplate",
+    "text": ("Proof: Props/C20.lean proves (check_sound) that a template accepted by the model's type checker executes without error on EVERY value of the schema, for arbitrary "
+             "library renderings; `decide` shows that each of the five shipped templates — parse trees, data schema and helper names are regenerated from /repo's working tree on every run by "
+             "text/template/parse and by reflection over the value captured inside a real executeTemplate call — passes the checker against the schema refined by the status invariant "
+             "(shipped_templates_check, shipped_templates_render); the invariant (a listed partition is non-nil with non-nil Start/End) is proved of the evaluator model for every window, clock and "
+             "threshold (problem_partition_has_ends, notifier_view_meets_invariant) and composed (every_status_renders); the data offers exactly Cluster, Group, ID, Start, Extras, Result and the "
+             "nine documented helpers (data_offers_documented_fields, helpers_offered). JSON clause: partial — the model's rendering of the HTTP and Slack templates is judged by a Lean JSON "
+             "recogniser (Model/Json.lean) that is compared with json.Valid on every real rendering of the run; no substitution theorem yet. Tie: real executeTemplate vs the compiled model on "
+             "shipped and generated templates, comparing error/no-error and the rendered bytes. A genuine defect (default-http-delete.tmpl used .Id) was found this way and repaired."),
+    "note": ("Trusted: Lean kernel + 3 standard axioms; the text/template model for the fragment in use (anything else is `unsup` and rejected by the checker); the fact generator (harness facts); "
+             "Go's fmt/time/json renderings are parameters. Not modelled: templates with define/with/variables/parenthesised pipelines (rejected, reported as broken obligation if a shipped template "
+             "starts using them). The tie is sampled."),
+}
